@@ -1,5 +1,4 @@
-import Proofs.Eval
-import Props.C17
+import Proofs.EvalSort
 /-!
 # C16  Package-level declarations in one evaluation may be written in any order
 
@@ -86,6 +85,66 @@ theorem go_values_agree (sorted goOrd : List (ADecl V)) (env : Name → Option V
     (hresp : ∀ d ∈ sorted, Respects d) :
     runA sorted env = runA goOrd env :=
   eval_order_independent sorted goOrd env hperm hnd hs (go_order_is_topological sorted goOrd hg) hresp
+
+theorem TopoOn.congr {N N' : List Name} {ds : List (ADecl V)} (h : ∀ n, n ∈ N' → n ∈ N)
+    (ht : TopoOn N ds) : TopoOn N' ds :=
+  fun pre d post hs n hn hN => ht pre d post hs n hn (h n hN)
+
+theorem declared_congr {ds1 ds2 : List DepScope.Decl}
+    (h : (ds1.map (·.name)).Perm (ds2.map (·.name))) : Dep.declared ds1 = Dep.declared ds2 := by
+  funext n
+  have e1 : ∀ ds : List DepScope.Decl, Dep.declared ds n = true ↔ n ∈ ds.map (·.name) := by
+    intro ds; simp [Dep.declared, List.any_eq_true, List.mem_map]
+  cases h1 : Dep.declared ds1 n <;> cases h2 : Dep.declared ds2 n <;> try rfl
+  · exact absurd (h.mem_iff.mpr ((e1 ds2).mp h2)) (by rw [← e1, h1]; simp)
+  · exact absurd (h.mem_iff.mp ((e1 ds1).mp h1)) (by rw [← e1, h2]; simp)
+
+/-- **sorted_orders_agree**: the same declarations (same names and dependencies) written in two
+    textual orders `ds1`, `ds2` and sorted under any two map iteration orders are evaluated to the
+    same values, provided the set is acyclic (no forward declaration needed) and every value is a
+    function of the values of the declared dependencies.  Built on C17's `sort_perm` and
+    `sort_topological` (through `sorted_order_is_topological`). -/
+theorem sorted_orders_agree (sem : Name → (Name → Option V) → V) (env : Name → Option V)
+    (ord1 ord2 : Dep.Ord) (ho1 : ord1.OK) (ho2 : ord2.OK)
+    (ds1 ds2 out1 out2 : List DepScope.Decl) (hg1 : Dep.GoodDecls ds1) (hg2 : Dep.GoodDecls ds2)
+    (hk1 : ∀ d ∈ ds1, d.kind ≠ DepScope.Kind.typeFwd) (hk2 : ∀ d ∈ ds2, d.kind ≠ DepScope.Kind.typeFwd)
+    (hsame : (ds1.map fun d => (d.name, d.deps)).Perm (ds2.map fun d => (d.name, d.deps)))
+    (hnd : (ds1.map (·.name)).Nodup)
+    (hs1 : Dep.sortDecls ord1 ds1 = some out1) (hs2 : Dep.sortDecls ord2 ds2 = some out2)
+    (hf1 : ∀ d ∈ out1, d.kind ≠ DepScope.Kind.typeFwd) (hf2 : ∀ d ∈ out2, d.kind ≠ DepScope.Kind.typeFwd)
+    (hresp : ∀ d ∈ out1, Respects (toA sem d)) :
+    runA (out1.map (toA sem)) env = runA (out2.map (toA sem)) env := by
+  have hnames : (ds1.map (·.name)).Perm (ds2.map (·.name)) := by
+    have := hsame.map Prod.fst
+    simpa [List.map_map, Function.comp_def] using this
+  have hp1 := Dep.sort_perm ord1 ho1 ds1 out1 hg1 hk1 hs1
+  have hp2 := Dep.sort_perm ord2 ho2 ds2 out2 hg2 hk2 hs2
+  rw [List.filter_eq_self.mpr (fun x hx => by simp [Dep.notFwd, hf1 x hx])] at hp1
+  rw [List.filter_eq_self.mpr (fun x hx => by simp [Dep.notFwd, hf2 x hx])] at hp2
+  -- the resolved declarations of both orders are the same abstract declarations
+  have hres : ∀ ds : List DepScope.Decl, (Dep.resolve ds).map (toA sem) =
+      (ds.map fun d => (d.name, d.deps)).map
+        (fun p => (⟨p.1, p.2.filter (Dep.declared ds), sem p.1⟩ : ADecl V)) := by
+    intro ds; simp [Dep.resolve, toA, List.map_map, Function.comp_def]
+  have hmid : ((Dep.resolve ds1).map (toA sem)).Perm ((Dep.resolve ds2).map (toA sem)) := by
+    rw [hres ds1, hres ds2, declared_congr hnames]
+    exact hsame.map _
+  have hperm : (out1.map (toA sem)).Perm (out2.map (toA sem)) :=
+    ((hp1.map _).trans hmid).trans (hp2.map _).symm
+  have hn1 : (namesA (out1.map (toA sem))).Perm (ds1.map (·.name)) := by
+    have := (hp1.map (·.name))
+    simpa [namesA, toA, Dep.resolve, List.map_map, Function.comp_def] using this
+  have hn2 : (namesA (out2.map (toA sem))).Perm (ds2.map (·.name)) := by
+    have := (hp2.map (·.name))
+    simpa [namesA, toA, Dep.resolve, List.map_map, Function.comp_def] using this
+  apply eval_order_independent _ _ env hperm (hn1.nodup_iff.mpr hnd)
+  · exact TopoOn.congr (fun n hn => hn1.mem_iff.mp hn)
+      (sorted_order_is_topological sem ord1 ho1 ds1 out1 hg1 hk1 hs1 hf1)
+  · exact TopoOn.congr (fun n hn => hnames.mem_iff.mp (hn1.mem_iff.mp hn))
+      (sorted_order_is_topological sem ord2 ho2 ds2 out2 hg2 hk2 hs2 hf2)
+  · intro a ha
+    obtain ⟨d, hd, rfl⟩ := List.mem_map.mp ha
+    exact hresp d hd
 
 /-! ## the concrete evaluator on sample declaration sets (non-vacuity, and the findings) -/
 
